@@ -1132,7 +1132,14 @@ def ftok(x):
 def table_read(cats, fmt):
     if fmt == "cif":
         return read_file(table_text(cats), "cif")
-    return read_file(table_bcif(cats), "bcif")
+    f = read_file(table_bcif(cats), "bcif")
+    if fmt == "cbcif":
+        from biotite.structure.io.pdbx import compress
+
+        s = io.BytesIO()
+        compress(f).write(s)
+        f = read_file(s.getvalue(), "bcif")
+    return f
 
 
 # rows of an atom_site table: dicts (group, elem, name, alt, comp, asym, seq, ins, x, y, z, occ, b, charge,
@@ -1145,7 +1152,7 @@ def atom_site_cols(rows, drop=()):
         "label_asym_id": [r["asym"] for r in rows], "label_entity_id": ["1" for r in rows],
         "label_seq_id": [str(r["seq"]) for r in rows], "pdbx_PDB_ins_code": [r["ins"] or "?" for r in rows],
         "Cartn_x": [ftok(r["x"]) for r in rows], "Cartn_y": [ftok(r["y"]) for r in rows],
-        "Cartn_z": [ftok(r["z"]) for r in rows], "occupancy": [ftok(r["occ"]) for r in rows],
+        "Cartn_z": [ftok(r["z"]) for r in rows], "occupancy": [r["occ"] if isinstance(r["occ"], str) else ftok(r["occ"]) for r in rows],
         "B_iso_or_equiv": [ftok(r["b"]) for r in rows],
         "pdbx_formal_charge": [str(r["charge"]) if r["charge"] else "?" for r in rows],
         "auth_seq_id": [str(r["a_seq"]) for r in rows], "auth_comp_id": [r["a_comp"] for r in rows],
@@ -1210,10 +1217,17 @@ def model_get_structure(rows, present, model, altloc, use_author, extra_fields, 
         per_res = []
         for s, e in spans:
             sums = {}
+            masked = False
             for i in range(s, e):
                 if alts[i] not in (".", "?"):
-                    sums[alts[i]] = sums.get(alts[i], 0.0) + first[i]["occ"]
-            if sums:
+                    if isinstance(first[i]["occ"], str):
+                        masked = True  # '?' / '.': occupancy unknown
+                        sums.setdefault(alts[i], 0.0)
+                    else:
+                        sums[alts[i]] = sums.get(alts[i], 0.0) + first[i]["occ"]
+            if sums and masked:
+                per_res.append(list(sums))  # any one ID, but one
+            elif sums:
                 best = max(sums.values())
                 per_res.append([a for a in sums if sums[a] == best])  # ties: any of them (unspecified)
             else:
@@ -1566,6 +1580,93 @@ def sel_cases(tier):
                             continue
                         yield {"fam": "sel", "names": names, "alts": list(alts), "occ": list(fixed_occ), "r2": r2,
                                "models": models, "variant": variant}
+
+
+# ---- 'occ': boundary values of the quantity the 'occupancy' policy compares ------------------------
+OCC_PALETTE = [0.0, 0.3, 0.5, 1.0, "?", "."]
+
+
+def occ_table(case):
+    """Residue 0 without alt ids; residue 1 with ids A (two atoms: sums) and B; residue 2 with ids
+    C, A, B in that file order (first id not alphabetically first).  case["vary"] names the residue whose
+    three occupancies take case["occ"]; the other one keeps fixed distinct values."""
+    rows = []
+
+    def add(comp, seq, name, elem, alt, occ):
+        k = len(rows)
+        rows.append({"group": "ATOM", "elem": elem, "name": name, "alt": alt, "comp": comp, "asym": "A", "seq": seq,
+                     "ins": "", "x": 1.5 + k, "y": -2.25 * k, "z": 0.125 * k, "occ": occ, "b": 10.0 + k, "charge": 0,
+                     "a_seq": seq + 100, "a_comp": comp, "a_asym": "P", "a_name": name, "model": 1, "id": k + 1})
+
+    o1 = case["occ"] if case["vary"] == 1 else [0.3, 0.3, 0.5]
+    o2 = case["occ"] if case["vary"] == 2 else [0.3, 1.0, 0.5]
+    add("GLY", 1, "N", "N", ".", 1.0)
+    add("ALA", 2, "N", "N", ".", 1.0)
+    add("ALA", 2, "CA", "C", "A", o1[0])
+    add("ALA", 2, "CB", "C", "A", o1[1])
+    add("ALA", 2, "CA", "C", "B", o1[2])
+    add("SER", 3, "CA", "C", "C", o2[0])
+    add("SER", 3, "CA", "C", "A", o2[1])
+    add("SER", 3, "CA", "C", "B", o2[2])
+    add("SER", 3, "N", "N", ".", 1.0)
+    n = len(rows)
+    for mdl in range(2, case["models"] + 1):
+        for k in range(n):
+            r = dict(rows[k])
+            r.update(model=mdl, id=len(rows) + 1, x=r["x"] + 8.0)
+            rows.append(r)
+    return {"rows": rows, "ccb": None, "conn": [], "cell": None}
+
+
+def occ_class(case):
+    o = case["occ"]
+    if any(isinstance(v, str) for v in o):
+        return "masked_all" if all(isinstance(v, str) for v in o) else "masked_some"
+    sums = [o[0] + o[1], o[2]] if case["vary"] == 1 else list(o)
+    if max(sums) == 0.0:
+        return "all_zero"
+    if sums.count(max(sums)) > 1:
+        return "tie_at_maximum"
+    return "first_id_is_maximum" if sums[0] == max(sums) else "later_id_is_maximum"
+
+
+def occ_case(ctx, case):
+    if not ctx.journal(json.dumps(case)):
+        return
+    tb = occ_table(case)
+    cats = table_cats(tb, ())
+    present = {"label_alt_id", "occupancy"}
+    found = {}
+    with warnings.catch_warnings():
+        warnings.simplefilter("ignore")
+        for fmt in FORMATS:
+            f = table_read(cats, fmt)
+            for altloc in ("first", "occupancy", "all"):
+                for model in ((None, 1) if case["models"] == 1 else (None, 1, -1)):
+                    rd = {"model": model, "altloc": altloc, "author": bool(case["vary"] % 2), "extra": ["atom_id"], "bonds": False}
+                    cls, kinds, outcome = table_one(f, fmt, tb, present, rd)
+                    ctx.ev(1, 1)
+                    ctx.count("unspecified" if altloc == "occupancy" and occ_class(case) in (
+                        "masked_all", "masked_some", "tie_at_maximum", "all_zero") else cls)
+                    if outcome is not None:
+                        ctx.outcome(("occ", altloc, outcome))
+                    for kind, (e, o) in kinds.items():
+                        ent = found.setdefault((kind, altloc), {"fmts": [], "rd": rd, "e": e, "o": o})
+                        if fmt not in ent["fmts"]:
+                            ent["fmts"].append(fmt)
+    if len(ctx.samples) < 1:
+        ctx.sample(case)
+    for (kind, altloc), ent in found.items():
+        ctx.violation("occ|%s|%s|altloc=%s|residue_with_%d_alt_ids,%s" % (
+            fmt_label(ent["fmts"]), kind, altloc, 2 if case["vary"] == 1 else 3, occ_class(case)),
+            "altloc policy on a hand-written table: %s (altloc=%s, occupancies %s)" % (kind, altloc, occ_class(case)),
+            {**case, "read": ent["rd"]}, ent["e"], ent["o"])
+
+
+def occ_cases(tier):
+    for vary in (1, 2):
+        for occ in itertools.product(OCC_PALETTE, repeat=3):
+            yield {"fam": "occ", "vary": vary, "occ": list(occ), "models": 2 if occ[0] == occ[2] else 1}
 
 
 # ---- 'indep': bond categories spelled in dictionary terms --------------------------------------
@@ -3080,6 +3181,10 @@ def shards(tier, seed):
     parts = _chunks(nfl, 60)
     for p in range(parts):
         out.append({"fam": "flavour", "part": p, "parts": parts, "w": 40 * nfl // parts})
+    nocc = sum(1 for _ in occ_cases(tier))
+    parts = _chunks(nocc, 110)
+    for p in range(parts):
+        out.append({"fam": "occ", "part": p, "parts": parts, "w": 60 * nocc // parts})
     for k, c in enumerate(big_cases(tier)):
         out.append({"fam": "big", "index": k, "w": 40000 if c["n_res"] < 10000 else 200000})
     out.sort(key=lambda s: -s.get("w", 0))
@@ -3113,6 +3218,10 @@ def run_shard(shard, ctx):
             nonuniq_case(ctx, case)
     elif fam == "big":
         big_case(ctx, big_cases(ctx.tier)[shard["index"]])
+    elif fam == "occ":
+        for idx, case in enumerate(occ_cases(ctx.tier)):
+            if idx % shard["parts"] == shard["part"]:
+                occ_case(ctx, case)
     elif fam == "flavour":
         for idx, case in enumerate(flavour_cases(ctx.tier, ctx.seed)):
             if idx % shard["parts"] == shard["part"]:
@@ -3150,6 +3259,8 @@ def replay(case, ctx):
         (refuse_case if case["kind"] == "refuse" else reuse_case)(ctx, case)
     elif fam == "flavour":
         flavour_case(ctx, case)
+    elif fam == "occ":
+        occ_case(ctx, {k: v for k, v in case.items() if k != "read"})
     else:
         raise ValueError(case)
 
@@ -3188,6 +3299,9 @@ def bounds(tier):
         "ropts": {"files": len(ROPT_VARIANTS), "models": "None, 1..m, -m..-1, 0, m+1, -(m+1), -(m+2)",
                   "altloc": 3, "use_author_fields": 2, "include_bonds": 2, "extra_fields": "every subset of 5 (4)"},
         "nonuniq": {"cases": sum(1 for _ in nonuniq_cases())},
+        "occ": {"palette": [str(v) for v in OCC_PALETTE], "tables": sum(1 for _ in occ_cases(tier)),
+                "residues": "none / 2 alt ids (one with two atoms) / 3 alt ids", "encodings": list(FORMATS),
+                "policies": ["first", "occupancy", "all"]},
         "flavour": {"array_flavours": len(FLAVOURS), "counts": [9, 10, 11, 99, 100, 101],
                     "many_of": ["models", "chains_numeric", "chains_two_letters", "chains_mixed", "residues"],
                     "atom_orders": 24, "residue_orders": 24, "box_orientations": len(ROT_BOXES),
